@@ -197,11 +197,18 @@ func runC12(c *Ctx) {
 			// true edge: high = mid (low unchanged); false edge: low = mid+1 (high unchanged)
 			trueShrinksHigh := hiT != nil && hiT != ssa.Value(highPhi) && loT == ssa.Value(lowPhi)
 			falseRaisesLow := loF != nil && loF != ssa.Value(lowPhi) && hiF == ssa.Value(highPhi)
+			op := bo.Op
 			if !(trueShrinksHigh && falseRaisesLow) {
-				why = "branch does not have the shape `cmp(vs[mid], target) OP 0 ⇒ high = mid else low = mid+1`"
-				return
+				// the same branch written the other way round: `!(…) ⇒ low = mid+1 else high = mid`
+				falseShrinksHigh := hiF != nil && hiF != ssa.Value(highPhi) && loF == ssa.Value(lowPhi)
+				trueRaisesLow := loT != nil && loT != ssa.Value(lowPhi) && hiT == ssa.Value(highPhi)
+				if !(falseShrinksHigh && trueRaisesLow) || negOp(op) == token.ILLEGAL {
+					why = "branch does not have the shape `cmp(vs[mid], target) OP 0 ⇒ high = mid else low = mid+1`"
+					return
+				}
+				op = negOp(op)
 			}
-			switch bo.Op {
+			switch op {
 			case token.GTR:
 				res = "Right"
 				why = "first index whose element is greater than the target"
@@ -209,7 +216,7 @@ func runC12(c *Ctx) {
 				res = "Left"
 				why = "first index whose element is not less than the target"
 			default:
-				why = "unrecognised comparison " + bo.Op.String()
+				why = "unrecognised comparison " + op.String()
 			}
 		})
 		return res, why
